@@ -19,6 +19,8 @@ func main() {
 	switch os.Args[1] {
 	case "run":
 		runCmd(os.Args[2:])
+	case "probe":
+		probeCmd(os.Args[2:])
 	case "extract":
 		extractCmd(os.Args[2:])
 	default:
